@@ -170,3 +170,54 @@ MUTANTS = [
     ("getrandstr harmless for-range", U, "            value //= letters\n            i += 1\n", "            value = value // letters\n            i = i + 1\n", "hold"),
 ]
 MUTANTS += c06_pwd.MUTANTS
+
+
+# ---- libpass salts: the length derived from the requested entropy (float arithmetic in the source, so decided by finite
+#      complete execution of the real function text) and the per-position draw ----
+def _libpass_salt_length():
+    import math
+    import string
+
+    from pyvc.concrete import load_function
+
+    got = {}
+    fn, info = load_function("libpass/_salt.py::generate_salt_by_entropy", {"math": math, "DEFAULT_CHARS": string.ascii_letters + string.digits,
+                                                                              "generate_salt": lambda length, chars: got.update(length=length, chars=chars) or "x" * length})
+    fails, cases = [], 0
+    for n in range(2, 257):
+        chars = "".join(chr(0x100 + i) for i in range(n))
+        p2 = 1
+        for bits in range(1, 1025):
+            p2 *= 2
+            cases += 1
+            fn(bits, chars)
+            L = got["length"]
+            if not (got["chars"] == chars and isinstance(L, int) and n ** L >= p2 and (L == 0 or n ** (L - 1) < p2)) and len(fails) < 5:
+                fails.append({"key": f"libpass-salt-length:{n}:{bits}", "what": f"{bits} bits over {n} symbols: length {L} is not the smallest L with {n}^L >= 2^{bits}", "witness": {"symbols": n, "bits": bits, "length": L}})
+    gs, info2 = load_function("libpass/_salt.py::generate_salt", {"DEFAULT_CHARS": string.ascii_letters + string.digits, "secrets": None})
+    for n in (1, 2, 7, 62, 94):
+        chars = "".join(chr(0x21 + i) for i in range(n))
+        for length in range(0, 65):
+            draws = []
+
+            class _S:
+                @staticmethod
+                def choice(seq, _d=draws):
+                    _d.append(seq)
+                    return seq[(7 * len(_d)) % len(seq)]
+            gs.__globals__["secrets"] = _S
+            cases += 1
+            v = gs(length, chars)
+            want = "".join(chars[(7 * (k + 1)) % n] for k in range(length))
+            if not (v == want and len(draws) == length and all(d == chars for d in draws)) and len(fails) < 5:
+                fails.append({"key": f"libpass-salt-draws:{n}:{length}", "what": "generate_salt is not one draw from the given alphabet per position, joined in order", "witness": {"symbols": n, "length": length, "salt": v}})
+    return {"cases": cases, "failures": fails, "samples": [{"symbols": 62, "bits": 128, "length": 22}],
+            "functions": [dict(info.describe(), contract="finite:libpass-salt-length"), dict(info2.describe(), contract="finite:libpass-salt-length")]}
+
+
+from pyvc.runner import Finite as _Finite  # noqa: E402
+
+FINITE = [_Finite("libpass-salt-length", _libpass_salt_length, "alphabets of 2..256 symbols x 1..1024 bits: generate_salt_by_entropy asks generate_salt for the smallest length L with symbols^L >= 2^bits (exact integer comparison) over the caller's alphabet; generate_salt for lengths 0..64: one secrets.choice over the alphabet per position, joined in order")]
+MUTANTS += [
+    ("libpass: bits per symbol rounded up to a whole number", "libpass/_salt.py", "    length = math.ceil(entropy_bits / math.log2(len(chars)))", "    length = math.ceil(entropy_bits / (len(chars) - 1).bit_length())", "refute", "libpass-salt"),
+]
